@@ -13,7 +13,7 @@ func selfcheck() int {
 	chk := func(name string, t *Term, want Result) {
 		script := c.Script([]*Term{t}, nil)
 		for _, k := range []string{"z3", "z3new", "cvc5"} {
-			r := pool.runOne(k, script, 20000)
+			r, _ := pool.runOne(k, script, 20000)
 			if r != want {
 				fmt.Printf("selfcheck %s on %s: got %v want %v\n", name, k, r, want)
 				bad++
